@@ -218,6 +218,19 @@ pub fn dump_coq(d: &CDump) -> String {
     }
 }
 
+/// `mkDd base [changed bins] sc cnt` for two dumps of equal table length
+pub fn dump_delta_coq(base: &CDump, d: &CDump, base_name: &str) -> String {
+    let (bt, dt) = (base.table.as_ref().unwrap(), d.table.as_ref().unwrap());
+    let ch: Vec<String> = dt
+        .bins
+        .iter()
+        .enumerate()
+        .filter(|(i, b)| bin_coq(b) != bin_coq(&bt.bins[*i]))
+        .map(|(i, b)| format!("B_ {} ({})", i, bin_coq(b)))
+        .collect();
+    format!("mkDd {} [{}] {} {}", base_name, ch.join(";"), z(d.sc), z(d.cnt))
+}
+
 impl CDump {
     pub fn len(&self) -> usize {
         self.table.as_ref().map(|t| t.bins.len()).unwrap_or(0)
